@@ -547,6 +547,20 @@ def w_independence(ctx, rng, i):
                         perturb(buf)
                 if tx.maxdiff(np.asarray(r_.h_matrix, dtype=float), beh_) > 0:
                     ctx.fail("write_into_original_reaches_the_copy", cls=cls, mech="copy_then_" + how + "_with_the_originals_vector")
+    # --- a PCA model copy handed the original's components back through the public setter owns them
+    from menpo.model import PCAVectorModel as _PVM
+    if isinstance(o, _PVM):
+        try:
+            src_ = o.copy()
+            src_.n_active_components = src_.n_components
+            dup_ = src_.copy()
+            dup_.components = src_.components
+            ctx.tap("model_copy_given_the_originals_components", "calls"); ctx.tap("model_copy_given_the_originals_components", "checked")
+            sh_ = shared(dup_, src_)
+            if sh_:
+                ctx.fail("copy_shares_memory_with_the_original", cls=cls, mech="copy_then_components_setter_with_the_originals_array", buffer=str(sh_[0])[:80])
+        except Exception as e_:
+            ctx.bump("components_setter_raised:" + type(e_).__name__)
     ctx.see("classes", cls)
     ctx.count_case((cls, d, tuple(sorted(set(ran)))), nontrivial=nbuf > 0 or bool(ran),
                    sample={"cls": cls, "dims": d, "buffers_written": nbuf, "mutators": sorted(set(ran))} if i < 8 else None)
